@@ -968,6 +968,13 @@ func (e *executor) prepareExprDependencies(
 		)
 	}
 	for _, dependency := range dependencies {
+		if len(dependency) < 2 {
+			// Example: `$` on its own. It does not name the input or a step, so there is nothing to connect it to.
+			return fmt.Errorf(
+				"invalid dependency %s in expression %s: expressions must refer to $.%s or $.%s",
+				dependency.String(), expr.String(), WorkflowInputKey, WorkflowStepsKey,
+			)
+		}
 		dependencyKind := dependency[1]
 		switch dependencyKind {
 		case WorkflowInputKey:
